@@ -46,6 +46,38 @@ static void gen(const char* dir)
             if (!ZSTD_isError(cs)) { spit(dir, id, "", dst, cs); spit(dir, id, ".src", x, n); if (dict) spit(dir, id, ".dict", dict, dl); id++; } }
         ZSTD_freeCCtx(c); free(x); free(dst); free(dict);
     }
+    /* forged parses through ZSTD_compressSequences: every frame mixes thousands of short sequences (all small length codes: large FSE tables, rare codes)
+     * with sequences whose literal-length, match-length and offset codes carry many extra bits at once (lengths at code boundaries up to 64 KiB+, offsets at
+     * powers of two up to the window): the bit-reload decisions of the sequence decoders, which ordinary compressor output rarely reaches */
+    long const nforge = v_opt_long("nforge", 6);
+    for (long i = 0; i < nforge; i++) {
+        int const wl = (int)vr_range(&r, 18, 22); size_t const win = (size_t)1 << wl; size_t const n = win + (size_t)vr_range(&r, 3, 8) * (128u << 10);
+        uint8_t* x = (uint8_t*)malloc(n + 8); size_t const maxSeq = n / 4 + 1024; ZSTD_Sequence* sq = (ZSTD_Sequence*)malloc(maxSeq * sizeof *sq); size_t ns = 0, pos = 0;
+        static const uint32_t lenEdges[] = { 0, 1, 2, 3, 15, 16, 17, 31, 32, 63, 64, 127, 128, 255, 256, 511, 512, 1023, 1024, 2047, 2048, 4095, 4096, 8191, 8192, 16383, 16384, 32767, 32768, 65535, 65536, 70000 };
+        /* history: one window of noise in literal-only blocks */
+        while (pos < win) { size_t const l = V_MIN((size_t)(128u << 10), win - pos); vr_fill(&r, x + pos, l); sq[ns].offset = 0; sq[ns].litLength = (unsigned)l; sq[ns].matchLength = 0; sq[ns].rep = 0; ns++; pos += l; }
+        while (pos < n && ns + 8 < maxSeq) {     /* dense blocks */
+            size_t const blockEnd = V_MIN(n, pos + (128u << 10)); size_t lastLits = 0;
+            while (pos < blockEnd && ns + 8 < maxSeq) {
+                uint32_t ll, ml; size_t off;
+                if (vr_chance(&r, 1, 1200)) { ll = lenEdges[vr_u(&r, vr_chance(&r, 1, 4) ? 32 : 22)] + vr_u(&r, 2); ml = 3 + lenEdges[vr_u(&r, vr_chance(&r, 1, 4) ? 32 : 22)] + vr_u(&r, 2); off = vr_chance(&r, 1, 2) ? ((size_t)1 << vr_range(&r, 10, wl)) - vr_u(&r, 2) : 1 + vr_u64(&r, win - 1); }
+                else { ll = vr_chance(&r, 1, 3) ? 0 : vr_u(&r, vr_chance(&r, 1, 8) ? 40 : 6); ml = 3 + vr_u(&r, vr_chance(&r, 1, 8) ? 60 : 8); off = vr_chance(&r, 1, 3) ? 1 + vr_u(&r, 64) : vr_chance(&r, 1, 2) ? 1 + vr_u64(&r, win - 1) : (size_t)1 << vr_range(&r, 1, wl); }
+                if (off > pos + ll) off = pos + ll ? pos + ll : 1; if (off > win) off = win;
+                if (pos + ll + ml > blockEnd) { if (pos + 3 >= blockEnd) { lastLits = blockEnd - pos; break; } ll = 0; ml = (uint32_t)V_MIN((size_t)ml, blockEnd - pos); if (ml < 3) { lastLits = blockEnd - pos; break; } if (off > pos) off = pos; }
+                vr_fill(&r, x + pos, ll); pos += ll; if (off == 0 || off > pos) { lastLits = 0; continue; }
+                for (uint32_t k = 0; k < ml; k++) x[pos + k] = x[pos + k - off]; pos += ml;
+                sq[ns].offset = (unsigned)off; sq[ns].litLength = ll; sq[ns].matchLength = ml; sq[ns].rep = 0; ns++; }
+            if (lastLits) { vr_fill(&r, x + pos, lastLits); pos += lastLits; }
+            sq[ns].offset = 0; sq[ns].litLength = (unsigned)lastLits; sq[ns].matchLength = 0; sq[ns].rep = 0; ns++;     /* block delimiter */
+        }
+        {   size_t const total = pos; ZSTD_CCtx* c = ZSTD_createCCtx(); size_t const cap = ZSTD_compressBound(total) + 1024; uint8_t* dst = (uint8_t*)malloc(cap);
+            ZSTD_CCtx_setParameter(c, ZSTD_c_windowLog, wl); ZSTD_CCtx_setParameter(c, ZSTD_c_minMatch, 3); ZSTD_CCtx_setParameter(c, ZSTD_c_blockDelimiters, ZSTD_sf_explicitBlockDelimiters); ZSTD_CCtx_setParameter(c, ZSTD_c_validateSequences, 1);
+            ZSTD_CCtx_setParameter(c, ZSTD_c_compressionLevel, (int)vr_range(&r, 1, 12)); ZSTD_CCtx_setParameter(c, ZSTD_c_checksumFlag, 1); ZSTD_CCtx_setParameter(c, ZSTD_c_searchForExternalRepcodes, (int)vr_range(&r, 0, 2));
+            size_t const cs = ZSTD_compressSequences(c, dst, cap, sq, ns, x, total);
+            if (!ZSTD_isError(cs)) { spit(dir, id, "", dst, cs); spit(dir, id, ".src", x, total); id++; printf("FORGED\t%ld\t%zu\t%zu\n", i, ns, total); } else printf("FORGE-REFUSED\t%ld\t%s\n", i, ZSTD_getErrorName(cs));
+            ZSTD_freeCCtx(c); free(dst); }
+        free(x); free(sq);
+    }
     printf("GEN\t%ld\n", id);
 }
 
@@ -87,6 +119,11 @@ static void run_paths(const char* dir)
         {   PREP(); size_t const ret = ZSTD_decompressDCtx(d, out, cap, F.p, fs); emit(id, "oneshot", ret, out, ret); }
         for (int k = 0; k < 2; k++) { PREP(); size_t prod = 0; size_t const ret = stream_path(d, F.p, fs, out, cap, &r, 0, &prod); char pn[16]; snprintf(pn, sizeof pn, "stream%d", k); emit(id, pn, ret, out, prod); }
         {   PREP(); ZSTD_DCtx_setParameter(d, ZSTD_d_stableOutBuffer, 1); size_t prod = 0; size_t const ret = stream_path(d, F.p, fs, out, cap, &r, 1, &prod); emit(id, "stableout", ret, out, prod); }
+        {   /* streaming on a context whose internal buffers were sized by ANOTHER frame (the next file of the corpus: other window, other block sizes) */
+            size_t gs = 0, gdl = 0; snprintf(path, sizeof path, "%s/%s", dir, files[(i + 1) % nf]); uint8_t* g = slurp(path, &gs); snprintf(path, sizeof path, "%s/%s.dict", dir, files[(i + 1) % nf]); uint8_t* gdict = slurp(path, &gdl);
+            if (g) { ZSTD_DCtx_reset(d, ZSTD_reset_session_and_parameters); ZSTD_DCtx_setParameter(d, ZSTD_d_windowLogMax, 31); if (gdict) ZSTD_DCtx_loadDictionary(d, gdict, gdl);
+                unsigned long long const gb = ZSTD_decompressBound(g, gs); size_t const gcap = (gb == ZSTD_CONTENTSIZE_ERROR || gb > (64u << 20)) ? (8u << 20) : (size_t)gb + 16; uint8_t* gout = (uint8_t*)malloc(gcap + 1); size_t gp = 0; (void)stream_path(d, g, gs, gout, gcap, &r, 0, &gp); free(gout); }
+            PREP(); size_t prod = 0; size_t const ret = stream_path(d, F.p, fs, out, cap, &r, 0, &prod); emit(id, "stream-after-other-frame", ret, out, prod); free(g); free(gdict); }
         {   PREP(); ZSTD_DCtx_setParameter(d, ZSTD_d_disableHuffmanAssembly, 1); size_t const ret = ZSTD_decompressDCtx(d, out, cap, F.p, fs); emit(id, "noasm-param", ret, out, ret); }
         {   /* buffer-less */ ZSTD_DCtx_reset(d, ZSTD_reset_session_and_parameters); if (dict) ZSTD_decompressBegin_usingDict(d, dict, dl); else ZSTD_decompressBegin(d); size_t ip = 0, op = 0; size_t ret = 0; long guard = 0;
             for (;;) { size_t const need = ZSTD_nextSrcSizeToDecompress(d); if (need == 0) break; if (need > fs - ip) { ret = (size_t)-ZSTD_error_srcSize_wrong; break; } ret = ZSTD_decompressContinue(d, out + op, cap - op, F.p + ip, need); if (ZSTD_isError(ret)) break; ip += need; op += ret; if (++guard > 5000000) { ret = (size_t)-ZSTD_error_GENERIC; break; } }
